@@ -24,6 +24,14 @@ def std_run(pid, tier, seed, work, c):
             states += r["distinct"]
             trans += r["generated"]
     shards = c.get("shards", {}).get(tier, 4)
+    gen_args = run_generators(c, tier, work, model_info)
+    os.environ["VERIF_TMP"] = work
+    return _std_run_rest(pid, tier, seed, work, c, states, trans, model_info, shards, gen_args)
+
+
+def run_generators(c, tier, work, model_info=None):
+    """TLC as generator of cases (histories, compositions, interleavings); returns the driver arguments"""
+    model_info = model_info if model_info is not None else []
     gen_args = []
     for gspec in c.get("generators", []):
         gout = os.path.join(work, gspec["out"])
@@ -35,7 +43,10 @@ def std_run(pid, tier, seed, work, c):
         model_info.append({"module": gspec["module"], "cfg": gcfg, "role": "TLC-generated cases for replay",
                            "wall_s": round(r["wall"], 1)})
         gen_args += [gspec["arg"], gout]
-    os.environ["VERIF_TMP"] = work
+    return gen_args
+
+
+def _std_run_rest(pid, tier, seed, work, c, states, trans, model_info, shards, gen_args):
     merged = {"accepted": 0, "n": 0, "rejected": [], "states": 0, "distinct": 0}
     batches_all = []
     drv_summaries = []
